@@ -118,6 +118,17 @@ Example ex_dot_in_range :
                  (fun a => exec_template (template_funcs ZNum ex_cfg) a (item_value ZNum ex_day)) = None.
 Proof. repeat split; vm_compute; reflexivity. Qed.
 
+(** a function that is not defined is an error even in a branch that is not executed
+    (Go checks the names when the text is parsed), and literals Go cannot hold are rejected *)
+Example ex_funcs_checked :
+  let it := Build_report_item ZNum (time_of_civil (2024, 3, 9)%Z) [] None in
+  option_bind (parse_template (b "{{if .Totals}}{{nope}}{{end}}"))
+              (fun a => exec_template (template_funcs ZNum ex_cfg) a (item_value ZNum it)) = None
+  /\ option_bind (parse_template (b "{{if .Totals}}{{formatDate .Time}}{{end}}"))
+                 (fun a => exec_template (template_funcs ZNum ex_cfg) a (item_value ZNum it)) = Some []
+  /\ parse_template (b "{{shorten .A 9223372036854775808}}") = None.
+Proof. repeat split; vm_compute; reflexivity. Qed.
+
 (** ** one-character changes of the template text are not silent *)
 
 Definition subst_at (n : nat) (c : N) (s : bytes) : bytes := firstn n s ++ c :: skipn (S n) s.
@@ -204,4 +215,17 @@ Proof.
   - apply lex_trim_spec; [vm_compute; reflexivity | | vm_compute; reflexivity].
     repeat constructor.
   - vm_compute. discriminate.
+Qed.
+
+(** the hypothesis [no_ld t] of [lex_trim_spec] cannot be dropped: when the text ends with a brace,
+    removing the white space moves the delimiter one byte to the left *)
+Example ex_trim_spec_needs_no_ld :
+  let t := b "a{" in
+  let r := b "- .X}}" in
+  no_ld t = false /\ all_ws [c_space] /\ has_ltrim r = true
+  /\ lex (t ++ [c_space] ++ 123 :: 123 :: r) = Some [LText (b "a{"); LAct [KField [b "X"]]]
+  /\ lex (t ++ 123 :: 123 :: r) = None.
+Proof.
+  cbv zeta. split; [vm_compute; reflexivity|]. split; [repeat constructor|].
+  repeat split; vm_compute; reflexivity.
 Qed.
